@@ -29,7 +29,10 @@ WATCHER_KEYS = ('numprocesses', 'graceful_timeout', 'warmup_delay', 'singleton',
 
 
 def tag_of(name):
-    return 'w_' + name.lower().replace(' ', '_')
+    """argv[0] token that identifies a watcher's workers in the simulated kernel (injective on names
+    that differ ignoring case; no shell metacharacters)"""
+    import re
+    return 'w_' + re.sub(r'[^a-z0-9]', lambda m: '_%x_' % ord(m.group()), name.lower())
 
 
 class HookScript:
